@@ -918,6 +918,12 @@ def results_method(el):
     return el.compute
 
 
+def _ctx_snap(o):
+    """What a streaming consumer can hold on to: the context of a result as it arrives (the
+    data may be a live object of the element, e.g. the histogram it goes on filling)."""
+    return ["ctx", snap(o[1])] if gen.has_ctx(o) else ["bare"]
+
+
 def run_acc(r, obs):
     er, ops = r["el"], r["ops"]
     lab = acc_label(er)
@@ -936,8 +942,22 @@ def run_acc(r, obs):
             if gen.has_ctx(v) and v[1]:
                 seen_ctx_fill = True
             continue
+        # every second compute is read by a streaming consumer that changes each received
+        # context in place before it asks for the next result (what a following MakeFilename or
+        # UpdateContext does); the snapshots taken at arrival are what is judged
+        stream_mode = bool(oi % 2)
+        arrival = None
         try:
-            outs = list(results_method(real)())
+            if stream_mode:
+                outs, arrival = [], []
+                for o in results_method(real)():
+                    arrival.append(_ctx_snap(o))
+                    outs.append(o)
+                    if gen.has_ctx(o):
+                        poison(o[1])
+                        obs.count("contexts_mutated")
+            else:
+                outs = list(results_method(real)())
             err = None
         except Exception as e:  # pylint: disable=broad-except
             outs, err = [], e
@@ -955,8 +975,11 @@ def run_acc(r, obs):
         if mutated_before:
             # later compute unchanged by the earlier mutation of results (twin not molested)
             obs.count("later_computes_compared")
-            same = ([snap(o) for o in outs] == [snap(o) for o in touts]
-                    and type(err) is type(terr))
+            if arrival is not None:
+                same = arrival == [_ctx_snap(o) for o in touts] and type(err) is type(terr)
+            else:
+                same = ([snap(o) for o in outs] == [snap(o) for o in touts]
+                        and type(err) is type(terr))
             if not same:
                 later_diff = ("after the contexts yielded earlier were mutated in place, %s "
                               "gives %r / %r; an element with the same history whose results "
@@ -972,6 +995,15 @@ def run_acc(r, obs):
                 obs.fail("compute-raises:%s:%s" % (lab, type(err).__name__),
                          "%s: %s raised %r" % (lab, where, err))
             return
+        if arrival is not None and terr is None and not mutated_before:
+            obs.count("later_computes_compared")
+            if not obs.check(arrival == [_ctx_snap(o) for o in touts],
+                             "result-changed-by-the-consumer-of-an-earlier-result:" + lab,
+                             "%s: %s read by a consumer that changes every received context in "
+                             "place before asking for the next result gives %r at arrival; an "
+                             "element with the same history whose results were left alone gives %r"
+                             % (lab, where, arrival, [_ctx_snap(o) for o in touts])):
+                return
         ctxs = [o[1] for o in outs if gen.has_ctx(o)]
         # (1) identity-graph disjointness
         fids, eids = {}, {}
